@@ -201,7 +201,9 @@ func TestDirected(t *testing.T) {
 			for bit := 0; bit < 8; bit++ {
 				work[pos] ^= 1 << uint(bit)
 				p, b := pos, bit
-				all(work, field == "len", func() string { return fmt.Sprintf("fixed log %d: flip bit %d of byte %d (%s of record %d)\n%s", li, b, p, field, rec, canon) })
+				all(work, field == "len", func() string {
+					return fmt.Sprintf("fixed log %d: flip bit %d of byte %d (%s of record %d)\n%s", li, b, p, field, rec, canon)
+				})
 				work[pos] ^= 1 << uint(bit)
 			}
 		}
